@@ -40,14 +40,14 @@ func NewRegexpTokenizer(r *regexp.Regexp) *RegexpTokenizer {
 func (rt *RegexpTokenizer) Tokenize(input []byte) analysis.TokenStream {
 	matches := rt.r.FindAllIndex(input, -1)
 	rv := make(analysis.TokenStream, 0, len(matches))
-	for i, match := range matches {
+	for _, match := range matches {
 		matchBytes := input[match[0]:match[1]]
 		if match[1]-match[0] > 0 {
 			token := analysis.Token{
 				Term:     matchBytes,
 				Start:    match[0],
 				End:      match[1],
-				Position: i + 1,
+				Position: len(rv) + 1,
 				Type:     detectTokenType(matchBytes),
 			}
 			rv = append(rv, &token)
